@@ -53,10 +53,43 @@ def parse_graph(graph, sc):
                 name = name[3:] if name.startswith("fn_") else name      # a guard given as a function object
                 gs.append([int(name[1:]), not neg])
         edges.append([None if src == "i" else int(src[1:]), None if dst == "i" else int(dst[1:]), evs, gs])
+    # what gets drawn is the DOT text: every edge object must also be in it (an arrow per edge)
+    if graph.to_string().count(" -> ") != len(graph.get_edges()):
+        edges.append([None, None, [], []])         # (an edge no model graph has: reported as a difference)
     return nodes, edges
 
 
+def id_probe(sc):
+    """state ids that contain one another (paid / unpaid, s1 / s10, active / inactive): exactly the current state
+    is highlighted, whichever it is"""
+    from statemachine import State, StateMachine
+    from statemachine.contrib.diagram import DotGraphMachine
+    bad = []
+    with warnings.catch_warnings():
+        warnings.simplefilter("ignore")
+
+        class M(StateMachine):
+            paid = State(initial=True)
+            unpaid = State()
+            s1 = State()
+            s10 = State()
+            inactive = State()
+            active = State()
+            nxt = paid.to(unpaid) | unpaid.to(s1) | s1.to(s10) | s10.to(inactive) | inactive.to(active) | active.to(paid)
+        sm = M()
+        for _ in range(7):
+            g = DotGraphMachine(sm)()
+            hl = sorted(node_name(n) for n in g.get_nodes()
+                        if n.get("fillcolor") == "turquoise" or str(n.get("penwidth")) == "2")
+            if hl != [sm.current_state.id]:
+                bad.append(f"current state {sm.current_state.id}, highlighted {hl}")
+            sm.send("nxt")
+    return {"probe": "ids", "bad": bad}
+
+
 def run_impl(sc):
+    if sc.get("probe") == "ids":
+        return id_probe(sc)
     from statemachine.contrib.diagram import DotGraphMachine
     eng.RUN = R = eng.Run(sc)
     ns = {}
@@ -137,6 +170,9 @@ def coq_cases(sc, obs):
 
 
 def coq_case(sc, obs):
+    if sc.get("probe"):
+        # a direct assertion: nothing to compare when it held, an impossible picture otherwise
+        return "[]" if not obs["bad"] else "[((mkm [false] 0 []), None, [((Some 5), 1, false, [])], [])]"
     # one scenario = class graph + one graph per visited state: folded into one verdict in Coq
     cs = coq_cases(sc, obs)
     if not cs:
@@ -167,6 +203,7 @@ def generate(rng, tier):
         _dups(sc, rng)
         sc["late_guard_listener"] = rng.random() < 0.4
         scs.append(sc)
+    scs.insert(0, {"probe": "ids"})
     return scs, [("seeded random machine classes (finals, multi-event, self, internal transitions, cond / unless "
                   "guards, four declaration styles): the class graph and the instance graph in 1..all of its "
                   "states", n)]
@@ -175,11 +212,15 @@ def generate(rng, tier):
 def nontrivial(sc, obs):
     """Non-trivial: the machine has >= 2 states, an internal transition or a final state, and the
     instance graph was taken in a state other than the initial one."""
+    if sc.get("probe"):
+        return False
     return (sc["n"] >= 2 and (any(t["int"] for t in sc["trans"]) or bool(sc["finals"]))
             and any(s != sc["initial"] for s in sc["visit"]))
 
 
 def render_source(sc):
+    if sc.get("probe"):
+        return "# probe: " + " ".join(id_probe.__doc__.split()) + "\n"
     return eng.render_source(sc) + f"\n# instance graphs taken in states {sc['visit']}\n"
 
 
